@@ -19,6 +19,24 @@ int run(const Options& o)
         printf("%s -> %s %s %s (execs=%ld writes=%ld)\n", op.str().c_str(), r.ok ? "ok" : "throws", r.ex_type.c_str(), r.what.c_str(), seam::sql_ctl.execs, seam::sql_ctl.writes);
         if (cmd == "sql") for (auto& q : seam::sql_ctl.log) printf("    SQL: %s\n", trunc(q, 200).c_str());
     }
+    if (cmd == "f1test")
+    {
+        auto img = w.save();
+        printf("dump0 %zu\n", w.dump().size());
+        w.restore(img);
+        {
+            seam::SqlArm arm;
+            seam::sql_ctl.fault_at = 0;
+            seam::sql_ctl.fault_kind = getenv("VX_KIND") ? atoi(getenv("VX_KIND")) : 1;
+            seam::sql_ctl.log_sql = true;
+            auto r = w.apply(wm::Op{"create_track", {0}, {}});
+            printf("faulted: ok=%d %s %s delivered=%ld\n", (int)r.ok, r.ex_type.c_str(), r.what.c_str(), seam::sql_ctl.faults_delivered);
+            for (auto& q : seam::sql_ctl.log) printf("   SQL: %s\n", vx::trunc(q, 100).c_str());
+            printf("   errmsg: %s autocommit=%d\n", sqlite3_errmsg(w.handle), sqlite3_get_autocommit(w.handle));
+        }
+        try { printf("dump1 %zu\n", w.dump().size()); } catch (const std::exception& e) { printf("dump1 failed: %s\n", e.what()); }
+        try { printf("dump2 %zu\n", w.dump().size()); } catch (const std::exception& e) { printf("dump2 failed: %s\n", e.what()); }
+    }
     if (cmd == "dump") printf("%s", w.dump().c_str());
     if (cmd == "observe") printf("%s", wm::observe(w).c_str());
     return 0;
